@@ -80,7 +80,19 @@ impl Updater<'_> {
 
     let mut uncommitted = 0;
     let mut utxo_cache = HashMap::new();
+    let mut prev_blockhash = None;
     while let Ok(block) = rx.recv() {
+      // `Reorg::detect_reorg` only sees committed block headers, so make sure
+      // that blocks indexed since the last commit form a chain
+      if prev_blockhash.is_some_and(|prev_blockhash| prev_blockhash != block.header.prev_blockhash)
+      {
+        return Err(anyhow!(reorg::Error::Uncommitted {
+          height: self.height
+        }));
+      }
+
+      prev_blockhash = Some(block.header.block_hash());
+
       self.index_block(
         &mut output_sender,
         &mut txout_receiver,
